@@ -10,6 +10,8 @@ import re
 from vf.gens import layers, netgen
 
 
+DOCUMENTED_CALLS = [b"strreverse(", b"reverse(", b"reversed(", b"replace(", b"atob(", b"base64decode(", b"frombase64string(", b"fromhexstring(",
+                    b"chr(", b"chrw(", b"chrb(", b"unescape(", b"createobject("]
 OPERATOR_LITERAL = re.compile(rb"""(["'])[\s_]*(?:&amp;|&|\+)[\s_]*\1""")
 
 WRAPS = [(b"CreateObject(", b")"), (b"createobject( ", b" )"), (b"x = CreateObject(", b") ;"),
@@ -27,6 +29,7 @@ def rec_single(r, name, type_, label, blob, plain, delims=(b" ", b" "), value=No
         wrap = r.choice(WRAPS)
         dl, dr = b" " + wrap[0], wrap[1] + b" "
     glue = None
+    ident_glue = False
     if wrap is None and delims == (b" ", b" ") and re.match(rb"[A-Za-z]{3,}\(", blob) and r.random() < 0.08:
         # an undecoded indicator that ends INSIDE the expression (a path whose last component runs into the call name):
         # the two overlap partially, so neither contains the other and both are results of the enclosing text
@@ -34,7 +37,12 @@ def rec_single(r, name, type_, label, blob, plain, delims=(b" ", b" "), value=No
         dl = b" " + glue
     if glue is None and wrap is None and delims == (b" ", b" ") and re.match(rb"[A-Za-z]{3,}\(", blob) and r.random() < 0.06:
         # letters glued in front of the call name (StrReversed(, myatob(, xchr(): the patterns have no word boundary there
-        dl = b" " + r.choice([b"Str", b"str", b"x", b"my", b"Un", b"_", b"9"])
+        g = r.choice([b"Str", b"str", b"x", b"my", b"Un", b"_", b"9"])
+        joined = (g + blob[:40]).lower()
+        if not any(0 <= joined.find(name) < len(g) for name in DOCUMENTED_CALLS):
+            # (letters that would spell another documented call name together with this one - Str + reverse( - are left out)
+            dl = b" " + g
+            ident_glue = True
     if prefix.endswith(b" ") and dl[:1] == b" ":
         prefix = prefix[:-1]
     if r.random() < 0.07 and not OPERATOR_LITERAL.search(blob):
@@ -54,6 +62,8 @@ def rec_single(r, name, type_, label, blob, plain, delims=(b" ", b" "), value=No
         rec["glue"] = True
     elif r.random() < 0.2:
         rec["decoy"] = True
+    if ident_glue:
+        rec["strict"] = True  # by the documented syntax nothing around the expression can combine with it
     return rec
 
 
@@ -204,8 +214,10 @@ def c14_case(r):
             # glued between words from the base64 alphabet that are not base64 by the documented rules (letters only)
             e = layers.BY_NAME[rec["layers"][0]["name"]]
             front = bytes(r.choice(b"abcdefghijklmnopqrstuvwxyzABCDEFGHIJKLMNOPQRSTUVWXYZ") for _ in range(r.choice([20, 24, 28, 40])))
-            back = r.choice([b"Zm9v", b"QUJD", b"ab", b"x9", b"abcd"])
-            return rec_single(r, e.name, e.type, e.label, rec["blob"], p, (b" " + front, back + b" "), wrap_p=0)
+            back = r.choice([b"Zm9v", b"x9Qz", b"QUJDMTIz", b"ab12", b"7xY0", b"ab", b"abcd"])
+            rec = rec_single(r, e.name, e.type, e.label, rec["blob"], p, (b" " + front, back + b" "), wrap_p=0)
+            rec["strict"] = True  # only line-break references may sit inside base64 text: the words cannot absorb the run
+            return rec
         if rec is not None and not rec.get("wrap") and r.random() < 0.3:
             # a reference outside 0..255 right next to the run does not belong to it
             e = layers.BY_NAME[rec["layers"][0]["name"]]
